@@ -398,6 +398,7 @@ func daaReal(ctx context.Context, repoDir string) int {
 			}
 		}
 	}
+	problems = append(problems, daaActivation(ctx, repoDir)...)
 	problems = append(problems, daaLowWork(ctx)...)
 	problems = append(problems, daaOvertaken(ctx, repoDir)...)
 	res["real_headers_accepted"] = total
@@ -641,6 +642,65 @@ func daaOvertaken(ctx context.Context, repoDir string) (problems []string) {
 				problems = append(problems, fmt.Sprintf("after the real chain grew ten headers past a %d header fork, the reported tip (height %d) is not the real header %d",
 					depth+1, repo.Height(), 725000+K+10))
 			}
+		}
+	}
+	return problems
+}
+
+// daaActivation: "from the difficulty-algorithm activation height (556767) on" - the very first height, with the
+// required-split check (which on mainnet pins the header of that height by hash) switched off as on a repository
+// configured for another network: the real chain to 556766, then headers at 556767 whose hashes meet their own, wrong,
+// bits.  They are refused as an invalid target; the real header of that height is accepted.
+func daaActivation(ctx context.Context, repoDir string) (problems []string) {
+	defer func() {
+		if r := recover(); r != nil {
+			problems = append(problems, fmt.Sprintf("PANIC at the activation height: %v", r))
+		}
+	}()
+	hs, err := loadFixture(repoDir, "headers_556000.txt")
+	if err != nil {
+		return []string{"harness: " + err.Error()}
+	}
+	const act = 556767 - 556000
+	if len(hs) <= act+2 {
+		return []string{"harness: fixture does not reach the activation height"}
+	}
+	repo := headers.NewRepository(headers.DefaultConfig(), storage.NewMockStorage())
+	repo.DisableDifficulty()
+	repo.DisableSplitProtection()
+	work := &big.Int{}
+	work.SetString("d167cf38dd7a9c078a40d5", 16)
+	repo.MockLatest(ctx, hs[0], 556000, work)
+	for i := 1; i < act; i++ {
+		if i == 151 {
+			repo.EnableDifficulty()
+		}
+		if err := repo.ProcessHeader(ctx, hs[i]); err != nil {
+			return []string{fmt.Sprintf("harness: real header %d refused: %v", 556000+i, err)}
+		}
+	}
+	parent := hs[act-1]
+	for _, bits := range []uint32{0x207fffff, 0x2100ffff, 0x1d00ffff, hs[act].Bits + 0x00010000} {
+		if bits == hs[act].Bits {
+			continue
+		}
+		easy := &wire.BlockHeader{Version: 0x20000000, PrevBlock: *parent.BlockHash(), Timestamp: parent.Timestamp + 600, Bits: bits, Nonce: 1}
+		tries := 0
+		for !hashMeets(easy) && tries < 200000 {
+			easy.Nonce++
+			tries++
+		}
+		if !hashMeets(easy) {
+			continue // a target too hard to meet by trial: such a header is refused for its hash anyway
+		}
+		if cls := hdrClassify(repo.ProcessHeader(ctx, easy)); cls != "badbits" {
+			problems = append(problems, fmt.Sprintf("a header at the activation height 556767 with bits 0x%08x (hash meets them) answered %s, want invalid target", bits, cls))
+		}
+	}
+	for i := act; i < act+3; i++ {
+		if err := repo.ProcessHeader(ctx, hs[i]); err != nil {
+			problems = append(problems, fmt.Sprintf("real header %d refused (split protection off): %v", 556000+i, err))
+			break
 		}
 	}
 	return problems
